@@ -44,6 +44,9 @@ func checkReference(c *fw.Ctx) {
 	} else {
 		c.Check(sameSet(got, setOf("signatures", "unsigned")), rule, "the reference hash excludes exactly {signatures, unsigned}", c.P.Pos(fn.Pos()), "", "excluded members: "+strings.Join(sortedSet(got), ","))
 	}
+	// the exclusion is a top-level one: the names do not travel into a recursive descent (a nested
+	// member called "unsigned" is part of the event's identity)
+	checkTopLevelOnly(c, rule, "referenceOfEvent", fn, setOf("signatures", "unsigned"))
 	canonJSON := fw.NameIs("gmsl.CanonicalJSON")
 	for _, dc := range deepCallsTo(fn, fw.NameIs("crypto/sha256.Sum256")) {
 		use := dc.Call.(ssa.Instruction)
